@@ -33,15 +33,18 @@ PLAN = dict(
     floor=dict(quick=900, thorough=35000),
     tiers=dict(
         quick=[fz("fz", 16, 700, 18),
-               fz("dbg", 16, 200, 8, cxxflags=["-DTBB_USE_DEBUG=1"])],
+               fz("dbg", 16, 200, 8, cxxflags=["-DTBB_USE_DEBUG=1"]),
+               cmd("cxx-pool-templates", "harness/c18_mempool_rc.cpp", "plain", 2, ["1500"], link_tbb=True, with_malloc=True, ldflags=["-lrapidcheck"], replay_tag="mempool-")],
         thorough=[fz("fz", 16, 13000, 320),
                   fz("dbg", 16, 3500, 125, cxxflags=["-DTBB_USE_DEBUG=1"]),
-                  fz("fz-empty", 16, 2500, 75, seeds=False)],
+                  fz("fz-empty", 16, 2500, 75, seeds=False),
+                  cmd("cxx-pool-templates", "harness/c18_mempool_rc.cpp", "plain", 8, ["20000"], link_tbb=True, with_malloc=True, ldflags=["-lrapidcheck"], replay_tag="mempool-")],
     ),
 )
 TEXT = dict(
     technique="fault-index enumeration inside a coverage-guided fuzz target (libFuzzer + ASan + UBSan): tbbmalloc compiled from the working tree, raw-memory callbacks and "
-              "mmap instrumented, every generated trace re-executed with the k-th raw request refused for every k",
+              "mmap instrumented, every generated trace re-executed with the k-th raw request refused for every k; plus rapidcheck over the C++ pool templates "
+              "(tbb::memory_pool<Alloc> over an allocator that throws at planned calls, tbb::fixed_pool) with a region ledger",
     level_text="Fault enumeration: for every generated trace, every raw-request index k of its fault-free run is refused once alone and once as a burst to the end of the "
                "operation (plus generated subsets). After each refused request the entry point must report failure the documented way (null / errno ENOMEM or EINVAL / "
                "posix_memalign code / std::bad_alloc / pool_create_v1 NO_MEMORY with null pool), all live patterns and the interval map must be intact, and the same "
